@@ -518,6 +518,16 @@ def gen_c11(tier, seed):
                 for ops in (["new"], ["new", "wake"], ["new", "sleep", "wake"], ["new", "wake", "wake"], ["new", "clear", "wake"]):
                     out[feat].append(PN.line(f"c11-{feat}-{p.name}-{k}", p, ops, sched=sched_for(rnd), delay=delay))
                     k += 1
+                # wake-up with every stored mode: the reset must not depend on the mode fields
+                modes = []
+                if p.has("lut"):
+                    modes += ["lut,quick", "lut,full"]
+                if p.has("refresh"):
+                    modes += ["refresh,quick", "refresh,full"]
+                for m in modes:
+                    for ops in (["new", m, "wake"], ["new", m, "sleep", "wake"]):
+                        out[feat].append(PN.line(f"c11-{feat}-{p.name}-{k}", p, ops, sched=sched_for(rnd), delay=delay))
+                        k += 1
                 nb = p.n
                 if p.name == "epd2in9_v2":
                     out[feat].append(PN.line(f"c11-{feat}-{p.name}-{k}", p, ["new", f"old,pos:{nb}", f"newf,r:1:{nb}", "dispnew"], sched=sched_for(rnd), delay=delay)); k += 1
@@ -726,6 +736,124 @@ def widen_hist(panel_names, tier, seed):
     return lines
 
 
+def gen_c15(tier, seed):
+    """the 12.48in driver: windows on a grid + every seam / edge straddle, buffers of 1 row, k rows
+    and the whole window, both planes, all 32 configurations; every public call for pin release"""
+    rnd = random.Random(seed * 7919 + 15)
+    W, H, SX, SY = 1304, 984, 648, 492
+    cfgs = [f"{a}{b}{c}{d}" for a in "01" for b in "01" for c in "0123" for d in "01"]
+    stats = {"windows": 0, "seam_x": 0, "seam_y": 0, "edge": 0, "rows1": 0, "rowsk": 0, "full": 0,
+             "misaligned": 0, "outside": 0, "badlen": 0, "empty_window": 0}
+
+    def bline(sid, ops, sched="-"):
+        return (f"id={sid} panel=epd12in48b_v2 delay=none sched={sched} raise=02,04,12 busylvl=0 "
+                f"fault=- scribble=0 ops=" + ";".join(ops))
+    xs = [0, 8, 320, SX - 16, SX - 8, SX, SX + 8, 976, W - 16, W - 8]
+    ys = [0, 1, 245, SY - 2, SY - 1, SY, SY + 1, 738, H - 2, H - 1]
+    wins = set()
+    for x in xs:
+        for w in (8, 16, 24, 64, 328, SX, W - SX, W):
+            if x + w > W:
+                continue
+            for y in ys:
+                for h in (1, 2, 3, 16, SY, SY + 1, H):
+                    if y + h <= H:
+                        wins.add((x, y, w, h))
+    wins = sorted(wins)
+    # all windows straddling a seam or touching an edge are kept; the interior grid is sampled
+    def kind(win):
+        x, y, w, h = win
+        k = []
+        if x < SX < x + w:
+            k.append("seam_x")
+        if y < SY < y + h:
+            k.append("seam_y")
+        if x == 0 or y == 0 or x + w == W or y + h == H:
+            k.append("edge")
+        return k
+    special = [w_ for w_ in wins if kind(w_)]
+    plain = [w_ for w_ in wins if not kind(w_)]
+    n_special = 260 if tier == "quick" else len(special)
+    n_plain = 60 if tier == "quick" else len(plain)
+    # quick keeps every x-straddle/y-straddle combination class at least once: stratify by (x, w) and (y, h)
+    def stratified(ws, n):
+        if len(ws) <= n:
+            return list(ws)
+        rnd.shuffle(ws)
+        seen, out, rest = set(), [], []
+        for w_ in ws:
+            key1, key2 = (w_[0], w_[2]), (w_[1], w_[3])
+            if key1 not in seen or key2 not in seen:
+                seen.add(key1); seen.add(key2); out.append(w_)
+            else:
+                rest.append(w_)
+        return (out + rest)[:max(n, len(out))]
+    chosen = stratified(special, n_special) + stratified(plain, n_plain)
+    lines = []
+    ops = []
+    k = 0
+    area_cap = 40000 if tier == "quick" else 200000
+    for i, win in enumerate(chosen):
+        x, y, w, h = win
+        stride = w // 8
+        stats["windows"] += 1
+        for kk in kind(win):
+            stats[kk] += 1
+        plane = "d1p" if (i + seed) % 2 == 0 else "d2p"
+        # buffer shapes: one row, k rows, the whole window (capped in size; the cap is lifted for a few below)
+        shapes = [1]
+        if h > 2:
+            shapes.append(rnd.randint(2, min(h - 1, 7)))
+        if stride * h <= area_cap:
+            shapes.append(h)
+        for rows in shapes:
+            stats["rows1" if rows == 1 else ("full" if rows == h else "rowsk")] += 1
+            ops.append(f"{plane},{x},{y},{w},{h},r:{rnd.randint(1, 9999)}:{stride * rows}")
+            if len(ops) >= 6:
+                cfg = cfgs[k % len(cfgs)]
+                lines.append(bline(f"c15-w{k}", ["reset", f"init,{cfg}"] + ops)); k += 1
+                ops = []
+    if ops:
+        lines.append(bline(f"c15-w{k}", ["reset", f"init,{cfgs[k % len(cfgs)]}"] + ops)); k += 1
+    # full frames: both planes, whole buffer / one row / k rows, under every configuration
+    full = W // 8 * H
+    for j, cfg in enumerate(cfgs):
+        n = [W // 8, W // 8 * 3, full, W // 8 * 41][j % 4] if (tier == "thorough" or j < 8) else [W // 8, W // 8 * 5][j % 2]
+        pl = "d1" if j % 2 == 0 else "d2"
+        lines.append(bline(f"c15-f{j}", ["reset", f"init,{cfg}", f"{pl},r:{j + 1}:{n}", f"mode,{cfgs[(j * 7 + 3) % 32]}",
+                                        f"{'d2' if pl == 'd1' else 'd1'},r:{j + 50}:{W // 8 * 2}"]))
+    # whole-panel partial windows and the four exact sub-display rectangles with full buffers
+    for j, (x, y, w, h) in enumerate([(0, 0, W, H), (0, 0, SX, SY), (SX, 0, W - SX, SY), (0, SY, SX, H - SY), (SX, SY, W - SX, H - SY),
+                                      (SX - 8, SY - 1, 16, 2), (0, SY - 1, W, 2), (SX - 8, 0, 16, H)]):
+        lines.append(bline(f"c15-q{j}", ["reset", "init,0000", f"d1p,{x},{y},{w},{h},r:{j + 7}:{w // 8 * h}", f"d2p,{x},{y},{w},{h},pos:{w // 8 * h}"]))
+        stats["full"] += 2
+    # inputs the driver rejects or that lie outside the property's quantifier: correspondence only
+    rej = []
+    for (x, y, w, h, n) in [(4, 0, 8, 1, 1), (0, 0, 12, 2, 3), (1, 1, 1, 1, 1), (641, 490, 15, 4, 8)]:
+        rej.append([f"d1p,{x},{y},{w},{h},r:1:{n}"]); stats["misaligned"] += 1
+    for (x, y, w, h, n) in [(1296, 0, 16, 2, 4), (0, 980, 8, 8, 8), (1304, 0, 8, 1, 1), (0, 984, 8, 1, 1), (1280, 970, 64, 30, 8 * 30), (2000, 2000, 8, 8, 8)]:
+        rej.append([f"d2p,{x},{y},{w},{h},r:2:{n}"]); stats["outside"] += 1
+    for (x, y, w, h, n) in [(0, 0, 16, 4, 3), (640, 490, 16, 4, 7), (0, 0, 1304, 3, 200), (0, 0, 16, 2, 0)]:
+        rej.append([f"d1p,{x},{y},{w},{h},r:3:{n}"]); stats["badlen"] += 1
+    rej.append(["d1,z:0"]); rej.append([f"d2,r:9:{W // 8 + 1}"]); stats["badlen"] += 2
+    for (x, y, w, h) in [(0, 0, 0, 0), (8, 8, 0, 4), (8, 8, 8, 0), (648, 492, 0, 0)]:
+        rej.append([f"d1p,{x},{y},{w},{h},r:4:8"]); stats["empty_window"] += 1
+    for j, o in enumerate(rej):
+        lines.append(bline(f"c15-r{j}", ["reset", "init,0010"] + o + ["busy"]))
+    # every public call, for the release of the lines (busy schedules vary)
+    calls = ["reset", "init,0101", "mode,1031", "refresh", "brefresh", "refreshp,640,480,16,24", "brefreshp,0,0,1304,984",
+             "refreshp,0,0,8,1", "poweroff", "hibernate", "status", "busy", "lut,c,r:1:10", "lut,c,r:1:60", "lut,c,r:1:70",
+             "lut,ww,r:2:42", "lut,ww,z:0", "lut,kw,r:3:59", "lut,wk,r:4:61", "lut,kk,r:5:1", "lut,bd,r:6:42", "lut,bd,r:6:43"]
+    for j, c in enumerate(calls):
+        for sc in (["-"] if tier == "quick" and j % 3 else ["-", sched_for(rnd, 8, 3)]):
+            lines.append(bline(f"c15-p{j}-{len(lines)}", ["reset", "init,0000", c, "busy", c], sched=sc))
+    # call sequences (driver state = control_state only): random mixes
+    for j in range(20 if tier == "quick" else 200):
+        seq = [rnd.choice(calls + ["d1p,640,488,16,8,r:1:4", "d2,r:2:326"]) for _ in range(rnd.randint(3, 7))]
+        lines.append(bline(f"c15-m{j}", ["reset", "init,0000"] + seq, sched=sched_for(rnd, 16, 3)))
+    return {"v3": lines, "stats": stats}
+
+
 def _mk(gen, props, view, rule, feats=("v3",), assumptions=()):
     return {"props": props, "view": view, "gen": gen, "rule": rule, "feats": list(feats), "assumptions": list(assumptions)}
 
@@ -744,6 +872,7 @@ PROPS = {
     "C12": dict(_mk(gen_c12, ["C12"], "raw", "histories up to length 2 (quick) / 3 (thorough) each run twice: buffers left intact vs every buffer complemented as soon as the borrowing call returns; oracle: the two wire traces are equal"), post="post_c12"),
     "C17": _mk(gen_c17, ["C17"], "logical", "panels with host-loaded tables x all sequences up to length 2 + sampled length 3 (quick) / 4 (thorough) over {select full, select quick, reload, sleep+wake, display}; features v3, v2 (2in13_v2) and alt (type-A LUT)", feats=("v3", "v2", "alt")),
     "C18": _mk(gen_c18, ["C18"], "logical", "every unit of every panel's alphabet + mixed sequences, features v3 / v2 / alt; oracle: decoded (command, #params) stream against the family tables, geometry registers", feats=("v3", "v2", "alt")),
+    "C15": _mk(gen_c15, ["C15"], "raw", "the 12.48in driver on its own mock bus (4 chip selects, 2 D/C lines sampled per transfer): 8-aligned windows on a grid of 10 x-origins x 8 widths x 10 y-origins x 7 heights (every window that straddles the 648-column or 492-row seam or touches a panel edge in thorough; stratified sample in quick) x buffers of 1 row / k rows / the whole window, alternating planes, rotating through all 32 configurations; full frames under every configuration; the four exact sub-display rectangles; every public call twice for pin release; rejected inputs (misaligned, wrong length, empty) and windows outside the panel for correspondence only; oracle: per-chip data stream, chip-select exclusivity, partial-window registers, lines released", assumptions=["windows inside the 1304x984 panel (a byte outside the panel has no owning sub-display)"]),
     "C03": {
         "props": ["C03"], "view": "raw", "gen": gen_c03,
         "rule": "setpx batches: the real set_pixel / draw_iter is called for every point of [-3,W+3]x[-3,H+3] (mode grid) or the i32 extremes (mode ext) on a PRNG-filled buffer; after every call the whole exposed buffer is compared with its previous state and (index, new byte) of every changed byte is hashed; the model predicts the same hash. quick: 3 aliases (bw / tri with width 122 / oct) x 4 rotations x colours, all VarDisplay geometries 1..16^2 x 3 colour types x 4 rotations; thorough: all 27 aliases x all colours, geometries to 40^2. non-trivial = batches that changed at least one byte",
